@@ -28,3 +28,10 @@ PROPS["C04"] = dict(
     generators=[dict(name="C04", quick=2000, thorough=150000)],
     harness=["impl"],
 )
+
+PROPS["C07"] = dict(
+    modules=["Proofs.C07"],
+    theorems=[],
+    generators=[dict(name="C07", quick=60, thorough=4000)],
+    harness=["impl"],
+)
